@@ -1,36 +1,1132 @@
-//! C07 — (stub; to be implemented, see DESIGN.md section 5 and HARNESS.md)
+//! C07 — enum-level format attribute: wraps every variant when it mentions `_variant`, otherwise it is only
+//! a default for the variants without an attribute of their own; `_variant` with a specifier or a
+//! non-Display trait is rejected; an enum-level format on `Debug` is rejected.
+//!
+//! Positive cases: a generated enum deriving one of the eight Display-like traits, plus two reference
+//! methods on the same type: `__own` (what the variant prints by itself: its own attribute through plain
+//! `format!`, else its single field under the derived trait, else its (renamed) name) and `__ref` (the
+//! documented combination rule, again through plain `format!` with `_variant` bound to the `__own` text).
+//! Negative cases (`expect_compile = false`): the same generator's wrapping enums with one `_variant`
+//! placeholder carrying a specifier / non-Display type, and enums deriving `derive_more::Debug` with an
+//! enum-level format. In-process (E1) the complete single-placeholder spec grid is screened; whatever the
+//! expander accepts there is confirmed through rustc before it is reported.
+use super::core::*;
+use super::dm;
+use super::lit::*;
+use super::p02::{arg_expr, casing, Field, CASINGS, K, PRELUDE, WORDS};
+use super::proggen::{build_and_run, CaseResult, CaseSrc, ProgSpec};
 use super::progprop::*;
+use serde_json::{json, Value};
 
-fn build(_d: &mut Dice) -> GenCase {
-    let mut c = GenCase::new("pub fn run(o: &mut Out) { o.check(\"stub\", true); }".to_string());
-    c.nontrivial = false;
+/// (trait, attribute, type string of the trait's placeholder)
+const DTRAITS: [(&str, &str, &str); 8] = [
+    ("Display", "display", ""),
+    ("LowerHex", "lower_hex", "x"),
+    ("Binary", "binary", "b"),
+    ("Octal", "octal", "o"),
+    ("UpperHex", "upper_hex", "X"),
+    ("LowerExp", "lower_exp", "e"),
+    ("UpperExp", "upper_exp", "E"),
+    ("Pointer", "pointer", "p"),
+];
+const KINDS: [K; 5] = [K::Int, K::Str, K::Float, K::Ptr, K::Size];
+
+pub const SIG_UNIT_DEFAULT: &str = "c07-nondisplay-unit-default-rejected";
+pub const SIG_PTR_WRAP: &str = "c07-wrap-pointer-implicit-field";
+const UNIT_MSG: &str = "implicit formatting of unit enum variant is supported only for `Display`";
+
+#[derive(Clone, Copy, PartialEq, Eq, Debug)]
+enum Shape {
+    Unit,
+    EmptyTuple,
+    EmptyBrace,
+    Tuple,
+    Named,
+}
+
+#[derive(Clone, Copy, PartialEq, Eq, Debug)]
+enum Mode {
+    /// no enum-level format
+    NoShared,
+    /// enum-level format is nothing but one bare `_variant` placeholder
+    Transparent,
+    /// enum-level format mentions `_variant` among text / fields
+    Wrap,
+    /// enum-level format does not mention `_variant`
+    Default,
+}
+
+impl Mode {
+    fn name(self) -> &'static str {
+        match self {
+            Mode::NoShared => "none",
+            Mode::Transparent => "transparent",
+            Mode::Wrap => "wrap",
+            Mode::Default => "default",
+        }
+    }
+}
+
+/// A format literal with its arguments, as source for the attribute and for the reference `format!` call.
+#[derive(Clone, Debug, Default)]
+struct LitSrc {
+    pieces: Vec<Piece>,
+    pos: Vec<String>,
+    named: Vec<(String, String)>,
+    /// fields named directly in the literal: they stand for the field itself (not for the `&field` binding)
+    directs: Vec<String>,
+    counter: usize,
+}
+
+impl LitSrc {
+    fn lit(&self) -> String {
+        render(&self.pieces)
+    }
+    fn lit_tok(&self) -> String {
+        proc_macro2::Literal::string(&self.lit()).to_string()
+    }
+    fn args_src(&self) -> Vec<String> {
+        self.pos.iter().cloned().chain(self.named.iter().map(|(a, e)| format!("{a} = {e}"))).collect()
+    }
+    fn attr_args(&self) -> String {
+        let a = self.args_src();
+        if a.is_empty() {
+            self.lit_tok()
+        } else {
+            format!("{}, {}", self.lit_tok(), a.join(", "))
+        }
+    }
+    /// plain `format!` with the identical literal and arguments and the documented bindings
+    fn ref_call(&self) -> String {
+        let a: Vec<String> = self.args_src().into_iter().chain(self.directs.iter().map(|n| format!("{n} = *{n}"))).collect();
+        if a.is_empty() {
+            format!("format!({})", self.lit_tok())
+        } else {
+            format!("format!({}, {})", self.lit_tok(), a.join(", "))
+        }
+    }
+    fn has_text(&self) -> bool {
+        self.pieces.iter().any(|p| !matches!(p, Piece::Ph(_)))
+    }
+    fn n_ph(&self) -> usize {
+        self.pieces.iter().filter(|p| matches!(p, Piece::Ph(_))).count()
+    }
+    fn text(&mut self, d: &mut Dice, extra: &[String]) {
+        let n = 7 + extra.len();
+        let p = match d.pick(n) {
+            0 => Piece::Text(" ".into()),
+            1 => Piece::Text(": ".into()),
+            2 => Piece::Text("<".into()),
+            3 => Piece::Text(">".into()),
+            4 => Piece::Open,
+            5 => Piece::Close,
+            6 => Piece::Text("é→".into()),
+            k => Piece::Text(extra[k - 7].clone()),
+        };
+        self.pieces.push(p);
+    }
+    fn positional(&mut self, d: &mut Dice, expr: &str, spec: Spec) {
+        // an identical earlier positional argument may be referred to again by index
+        if let Some(j) = self.pos.iter().position(|e| e == expr) {
+            if d.chance(50) {
+                self.pieces.push(Piece::Ph(Ph { arg: Arg::Index(j), spec }));
+                return;
+            }
+        }
+        let i = self.pos.len();
+        self.pos.push(expr.to_string());
+        let arg = if self.counter == i && d.chance(65) {
+            self.counter += 1;
+            Arg::Implicit
+        } else {
+            Arg::Index(i)
+        };
+        self.pieces.push(Piece::Ph(Ph { arg, spec }));
+    }
+    fn alias(&mut self, d: &mut Dice, expr: &str, spec: Spec) {
+        if let Some((a, _)) = self.named.iter().find(|(_, e)| e == expr) {
+            if d.chance(50) {
+                let a = a.clone();
+                self.pieces.push(Piece::Ph(Ph { arg: Arg::Name(a), spec }));
+                return;
+            }
+        }
+        let pool = ["v", "k", "al", "n2", "q", "zz"];
+        let Some(a) = pool.iter().find(|a| !self.named.iter().any(|(n, _)| n == *a)) else {
+            return self.positional(d, expr, spec);
+        };
+        self.named.push((a.to_string(), expr.to_string()));
+        self.pieces.push(Piece::Ph(Ph { arg: Arg::Name(a.to_string()), spec }));
+    }
+    fn direct_field(&mut self, name: &str, spec: Spec) {
+        if !self.directs.iter().any(|n| n == name) {
+            self.directs.push(name.to_string());
+        }
+        self.pieces.push(Piece::Ph(Ph { arg: Arg::Name(name.to_string()), spec }));
+    }
+    fn direct_variant(&mut self, spec: Spec) {
+        self.pieces.push(Piece::Ph(Ph { arg: Arg::Name("_variant".into()), spec }));
+    }
+}
+
+/// Something a literal may print: a field visible under `name`, formattable with any of `tys`; `repr` is set
+/// when the field has the same kind wherever the literal applies (then expressions over it are possible).
+#[derive(Clone, Debug)]
+struct Avail {
+    name: String,
+    tys: Vec<&'static str>,
+    repr: Option<Field>,
+}
+
+fn field_spec(d: &mut Dice, tys: &[&'static str]) -> Spec {
+    let ty = tys[d.pick(tys.len())];
+    let mut s = Spec::bare(ty);
+    if d.chance(30) {
+        match d.pick(5) {
+            0 => s.width = Cnt::Int(d.range(1, 9)),
+            1 => {
+                s.fill = Some(*d.choose(&['*', '0', 'é', '#']));
+                s.align = Some(*d.choose(&['<', '^', '>']));
+                s.width = Cnt::Int(d.range(1, 9));
+            }
+            2 => s.sign = Some('+'),
+            3 => s.alt = true,
+            _ => {
+                s.zero = true;
+                s.width = Cnt::Int(d.range(1, 9));
+            }
+        }
+        if ty != "p" && d.chance(25) {
+            s.prec = Cnt::Int(d.range(0, 4));
+        }
+    }
+    s
+}
+
+/// one placeholder printing a field, in one of the documented argument forms
+fn field_atom(d: &mut Dice, l: &mut LitSrc, a: &Avail) {
+    match d.weighted(&[5, 3, 2, 2]) {
+        0 => {
+            let sp = field_spec(d, &a.tys);
+            l.direct_field(&a.name, sp)
+        }
+        1 => {
+            let sp = field_spec(d, &a.tys);
+            l.positional(d, &a.name, sp)
+        }
+        2 => {
+            let sp = field_spec(d, &a.tys);
+            l.alias(d, &a.name, sp)
+        }
+        _ => match &a.repr {
+            Some(f) => {
+                let (expr, kind, _) = arg_expr(f, d);
+                let sp = field_spec(d, kind.tys());
+                if d.chance(50) {
+                    l.positional(d, &expr, sp)
+                } else {
+                    l.alias(d, &expr, sp)
+                }
+            }
+            None => {
+                let sp = field_spec(d, &a.tys);
+                l.positional(d, &a.name, sp)
+            }
+        },
+    }
+}
+
+struct Var {
+    name: String,
+    words: Vec<&'static str>,
+    raw: bool,
+    shape: Shape,
+    fields: Vec<Field>,
+    own: Option<LitSrc>,
+    own_substitutable: bool,
+    rename: Option<&'static str>,
+    values: Vec<String>,
+}
+
+impl Var {
+    fn ident(&self) -> String {
+        if self.raw {
+            format!("r#{}", self.name)
+        } else {
+            self.name.clone()
+        }
+    }
+    fn decl(&self) -> String {
+        let id = self.ident();
+        match self.shape {
+            Shape::Unit => id,
+            Shape::EmptyTuple => format!("{id}()"),
+            Shape::EmptyBrace => format!("{id} {{}}"),
+            Shape::Tuple => format!("{id}({})", self.fields.iter().map(|f| f.kind.ty()).collect::<Vec<_>>().join(", ")),
+            Shape::Named => format!("{id} {{ {} }}", self.fields.iter().map(|f| format!("{}: {}", f.member, f.kind.ty())).collect::<Vec<_>>().join(", ")),
+        }
+    }
+    fn pat(&self) -> String {
+        let id = self.ident();
+        match self.shape {
+            Shape::Unit => format!("T::{id}"),
+            Shape::EmptyTuple => format!("T::{id}()"),
+            Shape::EmptyBrace => format!("T::{id} {{}}"),
+            Shape::Tuple => format!("T::{id}({})", self.fields.iter().map(|f| f.name.clone()).collect::<Vec<_>>().join(", ")),
+            Shape::Named => format!("T::{id} {{ {} }}", self.fields.iter().map(|f| f.name.clone()).collect::<Vec<_>>().join(", ")),
+        }
+    }
+    fn ctor(&self) -> String {
+        let id = self.ident();
+        match self.shape {
+            Shape::Unit => format!("T::{id}"),
+            Shape::EmptyTuple => format!("T::{id}()"),
+            Shape::EmptyBrace => format!("T::{id} {{}}"),
+            Shape::Tuple => format!("T::{id}({})", self.values.join(", ")),
+            Shape::Named => format!("T::{id} {{ {} }}", self.fields.iter().zip(&self.values).map(|(f, v)| format!("{}: {v}", f.member)).collect::<Vec<_>>().join(", ")),
+        }
+    }
+}
+
+struct EnumModel {
+    tr: &'static str,
+    attr: &'static str,
+    tr_ty: &'static str,
+    mode: Mode,
+    rename_all: Option<&'static str>,
+    shared: Option<LitSrc>,
+    vars: Vec<Var>,
+    labels: Vec<String>,
+    /// variants without own attribute and without fields under a non-Display trait, covered only by a default
+    unit_default_nondisplay: bool,
+    /// variants whose own text is their single field under `Pointer` while the enum-level format wraps
+    ptr_implicit: Vec<String>,
+}
+
+fn own_literal(d: &mut Dice, name: &str, fields: &[Field], tr_ty: &'static str) -> (LitSrc, bool) {
+    let mut l = LitSrc::default();
+    let extra = vec![name.to_string(), format!("{name} ")];
+    if fields.is_empty() || d.chance(12) {
+        l.pieces.push(Piece::Text(name.to_lowercase()));
+        if d.chance(30) {
+            l.text(d, &extra);
+        }
+        return (l, false);
+    }
+    let avail: Vec<Avail> = fields.iter().map(|f| Avail { name: f.name.clone(), tys: f.kind.tys().to_vec(), repr: Some(f.clone()) }).collect();
+    if d.chance(25) {
+        // a single bare placeholder: can be substituted by a direct call of the placeholder's trait
+        let a = &avail[d.pick(avail.len())];
+        let ty = if a.tys.contains(&tr_ty) && d.chance(60) {
+            tr_ty
+        } else {
+            let plain: Vec<&'static str> = a.tys.iter().copied().filter(|t| *t != "x?" && *t != "X?").collect();
+            plain[d.pick(plain.len())]
+        };
+        let sp = Spec::bare(ty);
+        match d.pick(3) {
+            0 => l.direct_field(&a.name, sp),
+            1 => l.positional(d, &a.name, sp),
+            _ => l.alias(d, &a.name, sp),
+        }
+        return (l, true);
+    }
+    let n = d.range(1, 3);
+    for _ in 0..n {
+        if d.chance(70) {
+            l.text(d, &extra);
+        }
+        let a = avail[d.pick(avail.len())].clone();
+        field_atom(d, &mut l, &a);
+    }
+    if !l.has_text() || d.chance(30) {
+        l.text(d, &extra);
+    }
+    (l, false)
+}
+
+fn supports(k: K, ty: &str) -> bool {
+    k.tys().contains(&ty)
+}
+
+fn gen_var(d: &mut Dice, i: usize, style: usize, tr_ty: &'static str, mode: Mode, seen: &mut Vec<String>, m_flags: &mut (bool,)) -> Var {
+    let is_display = tr_ty.is_empty();
+    // name: one or two Pascal words, unique within the enum
+    let mut words: Vec<&'static str> = vec![WORDS[d.pick(WORDS.len())]];
+    if d.chance(35) {
+        words.push(WORDS[d.pick(WORDS.len())]);
+    }
+    let mut k = 0;
+    while seen.contains(&words.concat()) {
+        words.push(WORDS[(i + k) % WORDS.len()]);
+        k += 1;
+    }
+    let name = words.concat();
+    seen.push(name.clone());
+    let raw = d.chance(8);
+    let named = match style {
+        0 => false,
+        1 => true,
+        _ => d.chance(50),
+    };
+    let (shape, nf) = match d.weighted(&[5, 3, 3, 1]) {
+        0 => (if named { Shape::Named } else { Shape::Tuple }, 1),
+        1 => (if named { Shape::Named } else { Shape::Tuple }, d.range(2, 3)),
+        2 => (Shape::Unit, 0),
+        _ => (if named { Shape::EmptyBrace } else { Shape::EmptyTuple }, 0),
+    };
+    let pool = ["a", "b", "x"];
+    let mut fields = vec![];
+    for j in 0..nf {
+        let fit: Vec<K> = KINDS.iter().copied().filter(|k| supports(*k, tr_ty)).collect();
+        let kind = if !is_display && d.chance(75) { fit[d.pick(fit.len())] } else { KINDS[d.weighted(&[5, 3, 2, 2, 2])] };
+        let (fname, member) = if shape == Shape::Named { (pool[j].to_string(), pool[j].to_string()) } else { (format!("_{j}"), format!("{j}")) };
+        fields.push(Field { name: fname, member, kind });
+    }
+    // what the variant prints by itself when it has no attribute: documented only for these
+    let implicit_ok = match nf {
+        0 => is_display,
+        1 => supports(fields[0].kind, tr_ty),
+        _ => false,
+    };
+    let mut has_own = d.chance(50);
+    if !has_own && !implicit_ok {
+        if mode == Mode::Default && nf > 0 {
+            // the default stands in; the field(s) need not be formattable at all
+        } else if mode == Mode::Default && !m_flags.0 && d.chance(25) {
+            // field-less variant under a non-Display trait relying on the enum-level default
+            m_flags.0 = true;
+        } else {
+            has_own = true;
+        }
+    }
+    let (own, own_substitutable) = if has_own {
+        let (l, s) = own_literal(d, &name, &fields, tr_ty);
+        (Some(l), s)
+    } else {
+        (None, false)
+    };
+    let rename = if is_display && nf == 0 && !has_own && d.chance(25) { Some(CASINGS[d.pick(8)]) } else { None };
+    let values = fields.iter().enumerate().map(|(j, f)| f.kind.value(i + j, d)).collect();
+    Var { name, words, raw, shape, fields, own, own_substitutable, rename, values }
+}
+
+/// fields visible (with a common way of printing them) in every variant of `app`
+fn common_fields(app: &[&Var]) -> Vec<Avail> {
+    let Some(first) = app.first() else { return vec![] };
+    let shape = first.shape;
+    if !matches!(shape, Shape::Tuple | Shape::Named) || app.iter().any(|v| v.shape != shape) {
+        return vec![];
+    }
+    let n = app.iter().map(|v| v.fields.len()).min().unwrap_or(0);
+    let mut out = vec![];
+    for j in 0..n {
+        let name = first.fields[j].name.clone();
+        if app.iter().any(|v| v.fields[j].name != name) {
+            continue;
+        }
+        let tys: Vec<&'static str> = first.fields[j].kind.tys().iter().copied().filter(|t| app.iter().all(|v| supports(v.fields[j].kind, t))).collect();
+        if tys.is_empty() {
+            continue;
+        }
+        let uniform = app.iter().all(|v| v.fields[j].kind == first.fields[j].kind);
+        out.push(Avail { name, tys, repr: uniform.then(|| first.fields[j].clone()) });
+    }
+    out
+}
+
+fn variant_use(d: &mut Dice, l: &mut LitSrc, spec: Spec, labels: &mut Vec<String>) {
+    match d.weighted(&[5, 3, 3]) {
+        0 => {
+            l.direct_variant(spec);
+            labels.push("variant_via_placeholder".into());
+        }
+        1 => {
+            l.positional(d, "_variant", spec);
+            labels.push("variant_via_positional".into());
+        }
+        _ => {
+            l.alias(d, "_variant", spec);
+            labels.push("variant_via_alias".into());
+        }
+    }
+}
+
+fn gen_enum(d: &mut Dice, tr: (&'static str, &'static str, &'static str), mode: Mode) -> EnumModel {
+    let (tr, attr, tr_ty) = tr;
+    let is_display = tr_ty.is_empty();
+    let mut labels = vec![format!("trait={tr}"), format!("mode={}", mode.name())];
+    let style = d.weighted(&[5, 3, 3]);
+    let nv = d.range(1, 5);
+    let mut seen = vec![];
+    let mut flags = (false,);
+    let mut vars: Vec<Var> = (0..nv).map(|i| gen_var(d, i, style, tr_ty, mode, &mut seen, &mut flags)).collect();
+    if mode != Mode::NoShared && nv >= 2 && d.chance(60) {
+        // make sure the interesting mixture (with and without own attribute) is frequent
+        let with = vars.iter().filter(|v| v.own.is_some()).count();
+        if with == 0 {
+            let k = d.pick(nv);
+            let (l, s) = own_literal(d, &vars[k].name.clone(), &vars[k].fields.clone(), tr_ty);
+            vars[k].own = Some(l);
+            vars[k].own_substitutable = s;
+            vars[k].rename = None;
+        }
+    }
+    let rename_all = if is_display && d.chance(30) { Some(CASINGS[d.pick(8)]) } else { None };
+
+    let mut shared = LitSrc::default();
+    let words = ["Variant: ".to_string(), "Enum E".to_string(), " & ".to_string()];
+    let has_shared = match mode {
+        Mode::NoShared => false,
+        Mode::Transparent => {
+            variant_use(d, &mut shared, Spec::bare(""), &mut labels);
+            true
+        }
+        Mode::Wrap => {
+            let app: Vec<&Var> = vars.iter().collect();
+            let avail = common_fields(&app);
+            let nuse = 1 + d.weighted(&[5, 3, 2]);
+            let nfld = if avail.is_empty() { 0 } else { d.weighted(&[4, 4, 2]) };
+            // interleave: 1 = `_variant`, 0 = field
+            let mut items: Vec<u8> = vec![];
+            let (mut u, mut f) = (nuse, nfld);
+            while u + f > 0 {
+                if f == 0 || (u > 0 && d.pick(u + f) < u) {
+                    items.push(1);
+                    u -= 1;
+                } else {
+                    items.push(0);
+                    f -= 1;
+                }
+            }
+            let texty = d.chance(88);
+            for it in items {
+                if texty && d.chance(70) {
+                    shared.text(d, &words);
+                }
+                if it == 1 {
+                    variant_use(d, &mut shared, Spec::bare(""), &mut labels);
+                } else {
+                    let a = avail[d.pick(avail.len())].clone();
+                    field_atom(d, &mut shared, &a);
+                    labels.push("shared_refs_field".into());
+                }
+            }
+            if texty && (!shared.has_text() || d.chance(40)) {
+                shared.text(d, &words);
+            }
+            if shared.n_ph() == 1 && !shared.has_text() {
+                // that is the transparent form; keep the classes apart
+                shared.pieces.insert(0, Piece::Text("Variant: ".into()));
+            }
+            labels.push(format!("variant_uses={nuse}"));
+            true
+        }
+        Mode::Default => {
+            let app: Vec<&Var> = vars.iter().filter(|v| v.own.is_none()).collect();
+            let avail = common_fields(&app);
+            let nfld = if avail.is_empty() { 0 } else { d.weighted(&[3, 5, 3]) };
+            if nfld == 0 || d.chance(70) {
+                shared.text(d, &words);
+            }
+            for _ in 0..nfld {
+                let a = avail[d.pick(avail.len())].clone();
+                field_atom(d, &mut shared, &a);
+                labels.push("shared_refs_field".into());
+                if d.chance(50) {
+                    shared.text(d, &words);
+                }
+            }
+            if app.is_empty() {
+                labels.push("default_applies_to_no_variant".into());
+            }
+            true
+        }
+    };
+    if has_shared && shared.pos.iter().chain(shared.named.iter().map(|(_, e)| e)).any(|e| e != "_variant" && !e.chars().all(|c| c.is_alphanumeric() || c == '_')) {
+        labels.push("shared_expression_argument".into());
+    }
+    let with = vars.iter().filter(|v| v.own.is_some()).count();
+    if with > 0 && with < vars.len() {
+        labels.push("mixed_own_attribute".into());
+    }
+    if vars.iter().any(|v| v.fields.is_empty()) {
+        labels.push("has_fieldless_variant".into());
+    }
+    if vars.iter().any(|v| v.fields.len() > 1) {
+        labels.push("has_multi_field_variant".into());
+    }
+    if vars.iter().any(|v| v.own_substitutable) {
+        labels.push("own_attribute_substitutable".into());
+    }
+    if vars.iter().any(|v| v.raw) {
+        labels.push("raw_variant_ident".into());
+    }
+    if rename_all.is_some() {
+        labels.push("rename_all_on_enum".into());
+    }
+    if vars.iter().any(|v| v.rename.is_some()) {
+        labels.push("rename_all_on_variant".into());
+    }
+    if (rename_all.is_some() || vars.iter().any(|v| v.rename.is_some())) && vars.iter().any(|v| v.fields.is_empty() && v.own.is_none()) && matches!(mode, Mode::Wrap | Mode::Transparent) {
+        labels.push("renamed_name_wrapped".into());
+    }
+    if mode == Mode::Default && vars.iter().any(|v| v.own.is_none() && (v.fields.len() > 1 || (v.fields.len() == 1 && !supports(v.fields[0].kind, tr_ty)))) {
+        labels.push("default_covers_unformattable_variant".into());
+    }
+    let unit_default_nondisplay = !is_display && vars.iter().any(|v| v.fields.is_empty() && v.own.is_none());
+    if unit_default_nondisplay {
+        labels.push("fieldless_variant_default_nondisplay".into());
+    }
+    let ptr_implicit: Vec<String> = if tr == "Pointer" && matches!(mode, Mode::Wrap | Mode::Transparent) {
+        vars.iter().filter(|v| v.own.is_none() && v.fields.len() == 1).map(|v| v.name.clone()).collect()
+    } else {
+        vec![]
+    };
+    if !ptr_implicit.is_empty() {
+        labels.push("pointer_implicit_field_wrapped".into());
+    }
+    EnumModel { tr, attr, tr_ty, mode, rename_all, shared: has_shared.then_some(shared), vars, labels, unit_default_nondisplay, ptr_implicit }
+}
+
+impl EnumModel {
+    fn type_def(&self, derive: &str) -> String {
+        let attr = self.attr;
+        let mut s = format!("#[derive({derive})]\n");
+        if let Some(sh) = &self.shared {
+            s.push_str(&format!("#[{attr}({})]\n", sh.attr_args()));
+        }
+        if let Some(c) = self.rename_all {
+            s.push_str(&format!("#[{attr}(rename_all = \"{c}\")]\n"));
+        }
+        s.push_str("pub enum T {\n");
+        for v in &self.vars {
+            if let Some(o) = &v.own {
+                s.push_str(&format!("    #[{attr}({})]\n", o.attr_args()));
+            }
+            if let Some(c) = v.rename {
+                s.push_str(&format!("    #[{attr}(rename_all = \"{c}\")]\n"));
+            }
+            s.push_str(&format!("    {},\n", v.decl()));
+        }
+        s.push_str("}\n");
+        s
+    }
+
+    /// the text the variant prints by itself, as an expression over the variant's bindings
+    fn own_expr(&self, v: &Var) -> Option<String> {
+        if let Some(o) = &v.own {
+            return Some(o.ref_call());
+        }
+        match v.fields.len() {
+            0 if self.tr_ty.is_empty() => {
+                let name = match v.rename.or(self.rename_all) {
+                    Some(c) => casing(&v.words, c),
+                    None => v.name.clone(),
+                };
+                Some(format!("{name:?}.to_string()"))
+            }
+            1 if supports(v.fields[0].kind, self.tr_ty) => {
+                let ph = if self.tr_ty.is_empty() { "{}".to_string() } else { format!("{{:{}}}", self.tr_ty) };
+                Some(format!("format!(\"{ph}\", *{})", v.fields[0].name))
+            }
+            _ => None,
+        }
+    }
+
+    fn program(&self) -> String {
+        let mut s = self.type_def(&format!("derive_more::{}", self.tr));
+        let mut own_arms = String::new();
+        let mut ref_arms = String::new();
+        for v in &self.vars {
+            let own = self.own_expr(v);
+            own_arms.push_str(&format!("            {} => {},\n", v.pat(), own.clone().unwrap_or_else(|| "unreachable!(\"no format of its own\")".into())));
+            let shared_call = self.shared.as_ref().map(|sh| sh.ref_call());
+            let e = match self.mode {
+                Mode::NoShared => "self.__own()".to_string(),
+                Mode::Transparent | Mode::Wrap => format!("{{ let _variant: String = self.__own(); {} }}", shared_call.unwrap()),
+                Mode::Default => {
+                    if v.own.is_some() {
+                        "self.__own()".to_string()
+                    } else {
+                        shared_call.unwrap()
+                    }
+                }
+            };
+            ref_arms.push_str(&format!("            {} => {e},\n", v.pat()));
+        }
+        let outer = if self.tr_ty.is_empty() { "{}".to_string() } else { format!("{{:{}}}", self.tr_ty) };
+        s.push_str(&format!(
+            "impl T {{\n    pub fn tag(&self) -> u32 {{ 7 }}\n    /// what the variant prints by itself\n    pub fn __own(&self) -> String {{\n        match self {{\n{own_arms}        }}\n    }}\n    /// the documented rule for the enum-level format\n    pub fn __ref(&self) -> String {{\n        match self {{\n{ref_arms}        }}\n    }}\n}}\n"
+        ));
+        s.push_str("pub fn run(o: &mut Out) {\n");
+        for v in &self.vars {
+            s.push_str(&format!("    {{ let v = {}; o.eq(\"variant {}\", &v.__ref(), &format!(\"{outer}\", v)); }}\n", v.ctor(), v.name));
+        }
+        s.push_str("}\n");
+        s
+    }
+
+    fn nontrivial(&self) -> bool {
+        let with = self.vars.iter().filter(|v| v.own.is_some()).count();
+        with > 0 && with < self.vars.len() && self.shared.as_ref().is_some_and(|s| s.has_text())
+    }
+
+    fn meta(&self) -> Value {
+        json!({
+            "trait": self.tr,
+            "mode": self.mode.name(),
+            "shared": self.shared.as_ref().map(|s| s.attr_args()),
+            "unit_default_nondisplay": self.unit_default_nondisplay,
+            "ptr_implicit": self.ptr_implicit,
+        })
+    }
+}
+
+fn pick_trait(d: &mut Dice) -> (&'static str, &'static str, &'static str) {
+    DTRAITS[d.weighted(&[50, 8, 7, 7, 7, 7, 7, 7])]
+}
+
+fn build_positive(d: &mut Dice) -> GenCase {
+    let tr = pick_trait(d);
+    let mode = [Mode::Wrap, Mode::Default, Mode::Transparent, Mode::NoShared][d.weighted(&[46, 36, 12, 6])];
+    let m = gen_enum(d, tr, mode);
+    let mut c = GenCase::new(m.program());
+    c.labels = m.labels.clone();
+    c.labels.sort();
+    c.labels.dedup();
+    c.nontrivial = m.nontrivial();
+    c.meta = m.meta();
     c
 }
+
+// ------------------------------------------------------------------------------------------------
+// rejection clauses
+
+const ALIGNS: [&str; 7] = ["", "<", "^", ">", "*<", "0^", "é>"];
+const SIGNS: [&str; 3] = ["", "+", "-"];
+const WIDTHS: [&str; 3] = ["", "7", "12"];
+const PRECS: [&str; 3] = ["", ".3", ".0"];
+
+/// every format spec built from the grid (the empty one excluded): 7 x 3 x 2 x 2 x 3 x 3 x 11 - 1
+pub fn spec_grid() -> Vec<String> {
+    let mut out = vec![];
+    for a in ALIGNS {
+        for s in SIGNS {
+            for alt in ["", "#"] {
+                for z in ["", "0"] {
+                    for w in WIDTHS {
+                        for p in PRECS {
+                            for t in TYPES {
+                                let sp = format!("{a}{s}{alt}{z}{w}{p}{t}");
+                                if !sp.is_empty() {
+                                    out.push(sp);
+                                }
+                            }
+                        }
+                    }
+                }
+            }
+        }
+    }
+    out
+}
+
+/// single-modifier specs and every non-Display type, plus the parameterised counts
+const SINGLE_SPECS: [&str; 21] = ["<", "^", ">", "*<", "+", "-", "#", "0", "7", ".3", "?", "x?", "X?", "o", "x", "X", "p", "b", "e", "E", ">8"];
+
+/// A small enum whose enum-level literal carries `spec` on its `_variant` placeholder, in one of the three
+/// ways of mentioning `_variant`; `spec == ""` gives the accepted twin.
+fn spec_item(tr: &str, attr: &str, tr_ty: &str, form: usize, spec: &str, extra_args: &str) -> String {
+    let colon = if spec.is_empty() { String::new() } else { format!(":{spec}") };
+    let shared = match form {
+        0 => format!("\"<{{_variant{colon}}}>\"{extra_args}"),
+        1 => format!("\"<{{0{colon}}}>\", _variant{extra_args}"),
+        _ => format!("\"<{{v{colon}}}>\", v = _variant{extra_args}"),
+    };
+    let ph = if tr_ty.is_empty() { "{_0}".to_string() } else { format!("{{_0:{tr_ty}}}") };
+    format!(
+        "#[derive(derive_more::{tr})]\n#[{attr}({shared})]\npub enum T {{\n    #[{attr}(\"A {ph}\")]\n    A(i32),\n    B(u8),\n    #[{attr}(\"c\")]\n    C,\n}}\n"
+    )
+}
+
+fn negative_case(body: String, labels: Vec<String>, meta: Value) -> GenCase {
+    let derive = if body.contains("derive_more::Debug") { "Debug".to_string() } else { DTRAITS.iter().find(|t| body.contains(&format!("derive(derive_more::{})", t.0))).map_or("Display", |t| t.0).to_string() };
+    let e1 = e1_label(&derive, &body);
+    let mut c = GenCase::new(body);
+    c.expect_compile = false;
+    c.runnable = false;
+    c.labels = labels;
+    c.labels.push(e1);
+    c.labels.push("negative".into());
+    c.nontrivial = true;
+    c.meta = meta;
+    c
+}
+
+fn random_spec(d: &mut Dice) -> String {
+    let sp = format!(
+        "{}{}{}{}{}{}{}",
+        ALIGNS[d.pick(ALIGNS.len())],
+        SIGNS[d.weighted(&[6, 2, 1])],
+        if d.chance(25) { "#" } else { "" },
+        if d.chance(25) { "0" } else { "" },
+        WIDTHS[d.weighted(&[5, 3, 2])],
+        PRECS[d.weighted(&[6, 2, 1])],
+        TYPES[d.weighted(&[8, 2, 1, 1, 1, 1, 1, 1, 1, 1, 1])],
+    );
+    if sp.is_empty() {
+        // all dice were zero: the simplest rejected spec
+        ">".into()
+    } else {
+        sp
+    }
+}
+
+/// How the working-tree expander itself treats a negative item (label only; rustc's verdict decides).
+fn e1_label(derive: &str, item: &str) -> String {
+    let Some(dv) = dm::Derive::by_name(derive) else { return "neg_e1=unknown_derive".into() };
+    match dm::expand_src(dv, item) {
+        Ok(dm::Outcome::Err(m)) if m.contains("_variant") || m.contains("not allowed on enum") => "neg_e1=rejected_for_stated_reason".into(),
+        Ok(dm::Outcome::Err(_)) => "neg_e1=rejected_other_reason".into(),
+        Ok(dm::Outcome::Ok(_)) => "neg_e1=accepted".into(),
+        Ok(dm::Outcome::Panic(_)) => "neg_e1=panic".into(),
+        Err(_) => "neg_e1=unparsable".into(),
+    }
+}
+
+fn build_negative(d: &mut Dice) -> GenCase {
+    if d.chance(30) {
+        // enum-level format on Debug (any content): generated like the Display-like enums, attribute `debug`
+        let mode = [Mode::Default, Mode::Wrap, Mode::Transparent][d.weighted(&[5, 3, 2])];
+        let m = gen_enum(d, ("Debug", "debug", "?"), mode);
+        let mut labels = vec!["neg=debug_enum_level".to_string(), format!("neg_debug_mode={}", mode.name())];
+        if m.vars.iter().any(|v| v.own.is_some()) {
+            labels.push("neg_debug_with_variant_attributes".into());
+        }
+        return negative_case(m.type_def("derive_more::Debug"), labels, json!({"neg": "debug", "shared": m.shared.as_ref().map(|s| s.attr_args())}));
+    }
+    // a wrapping (or transparent) enum of the positive generator with a specifier on one `_variant` placeholder
+    let tr = pick_trait(d);
+    let mode = if d.chance(80) { Mode::Wrap } else { Mode::Transparent };
+    let mut m = gen_enum(d, tr, mode);
+    let spec = random_spec(d);
+    let sh = m.shared.as_mut().unwrap();
+    // the placeholders that stand for `_variant`
+    let idx: Vec<usize> = sh
+        .pieces
+        .iter()
+        .enumerate()
+        .filter(|(_, p)| match p {
+            Piece::Ph(ph) => match &ph.arg {
+                Arg::Name(n) => n == "_variant" || sh.named.iter().any(|(a, e)| a == n && e == "_variant"),
+                Arg::Index(i) => sh.pos.get(*i).is_some_and(|e| e == "_variant"),
+                Arg::Implicit => false,
+            },
+            _ => false,
+        })
+        .map(|(i, _)| i)
+        .collect();
+    // implicit placeholders: resolve through the counter
+    let mut implicit_idx = vec![];
+    let mut counter = 0;
+    for (i, p) in sh.pieces.iter().enumerate() {
+        if let Piece::Ph(ph) = p {
+            if ph.arg == Arg::Implicit {
+                if sh.pos.get(counter).is_some_and(|e| e == "_variant") {
+                    implicit_idx.push(i);
+                }
+                counter += 1;
+            }
+        }
+    }
+    let all: Vec<usize> = idx.into_iter().chain(implicit_idx).collect();
+    if all.is_empty() {
+        return negative_case(spec_item(m.tr, m.attr, m.tr_ty, 0, &spec, ""), vec!["neg=variant_spec".into()], json!({"neg": "spec", "spec": spec}));
+    }
+    let k = all[d.pick(all.len())];
+    let form = if let Piece::Ph(ph) = &mut sh.pieces[k] {
+        // a raw spec string is carried in the `ty` slot of the model (rendered verbatim)
+        ph.spec = Spec::bare(&spec);
+        match &ph.arg {
+            Arg::Name(n) if n == "_variant" => "placeholder",
+            Arg::Name(_) => "alias",
+            _ => "positional",
+        }
+    } else {
+        unreachable!()
+    };
+    let only_type = TYPES.contains(&spec.as_str());
+    let labels = vec![
+        "neg=variant_spec".to_string(),
+        format!("neg_form={form}"),
+        format!("neg_trait={}", m.tr),
+        if only_type { "neg_spec=type_only".to_string() } else { "neg_spec=modifiers".to_string() },
+    ];
+    negative_case(m.type_def(&format!("derive_more::{}", m.tr)), labels, json!({"neg": "spec", "spec": spec, "form": form}))
+}
+
+fn build(d: &mut Dice) -> GenCase {
+    if d.chance(14) {
+        build_negative(d)
+    } else {
+        build_positive(d)
+    }
+}
+
+/// the systematic part: every single-modifier spec / non-Display type x the three ways of mentioning
+/// `_variant` x two derived traits must be rejected, the spec-less twins must compile and print the rule's
+/// text; enum-level `#[debug("...")]` in a few shapes must be rejected.
+fn fixed() -> Vec<GenCase> {
+    let mut out = vec![];
+    for (tr, attr, tr_ty) in [DTRAITS[0], DTRAITS[1]] {
+        for form in 0..3 {
+            let form_name = ["placeholder", "positional", "alias"][form];
+            for spec in SINGLE_SPECS {
+                out.push(negative_case(
+                    spec_item(tr, attr, tr_ty, form, spec, ""),
+                    vec!["neg=variant_spec".into(), "fixed".into(), format!("neg_form={form_name}"), format!("neg_trait={tr}")],
+                    json!({"neg": "spec", "spec": spec, "form": form_name}),
+                ));
+            }
+            // counts taken from arguments
+            for (spec, extra) in [("w$", ", w = 5"), (".p$", ", p = 2"), ("1$", ", 5"), (".*", "")] {
+                if spec == "1$" && form == 2 {
+                    continue; // a positional argument cannot follow `v = _variant`
+                }
+                let body = if spec == ".*" {
+                    // `.*` takes the precision from the next positional argument
+                    let ph = if tr_ty.is_empty() { "{_0}".to_string() } else { format!("{{_0:{tr_ty}}}") };
+                    let shared = match form {
+                        0 => "\"<{_variant:.*}>\", 3".to_string(),
+                        1 => "\"<{:.*}>\", 3, _variant".to_string(),
+                        _ => "\"<{v:.*}>\", 3, v = _variant".to_string(),
+                    };
+                    format!("#[derive(derive_more::{tr})]\n#[{attr}({shared})]\npub enum T {{\n    #[{attr}(\"A {ph}\")]\n    A(i32),\n    B(u8),\n}}\n")
+                } else if spec == "1$" && form == 1 {
+                    spec_item(tr, attr, tr_ty, form, spec, extra)
+                } else if spec == "1$" {
+                    // positional width parameter: index 0 is the only positional argument here
+                    spec_item(tr, attr, tr_ty, form, "0$", extra)
+                } else {
+                    spec_item(tr, attr, tr_ty, form, spec, extra)
+                };
+                out.push(negative_case(
+                    body,
+                    vec!["neg=variant_spec".into(), "fixed".into(), "neg_spec=count_parameter".into(), format!("neg_form={form_name}")],
+                    json!({"neg": "spec", "spec": spec, "form": form_name}),
+                ));
+            }
+            // the accepted twin
+            let ph = |v: i32| if tr_ty.is_empty() { format!("{v}") } else { format!("{v:x}") };
+            let mut c = GenCase::new(format!(
+                "{}pub fn run(o: &mut Out) {{\n    o.eq(\"variant A\", {:?}, &format!(\"{{:{tr_ty}}}\", T::A(17)));\n    o.eq(\"variant B\", {:?}, &format!(\"{{:{tr_ty}}}\", T::B(200)));\n    o.eq(\"variant C\", \"<c>\", &format!(\"{{:{tr_ty}}}\", T::C));\n}}\n",
+                spec_item(tr, attr, tr_ty, form, "", ""),
+                format!("<A {}>", ph(17)),
+                format!("<{}>", ph(200)),
+            ));
+            c.labels = vec!["fixed".into(), "accepted_twin".into(), format!("trait={tr}")];
+            c.nontrivial = true;
+            out.push(c);
+        }
+    }
+    for (lit, variants) in [
+        ("\"Test\"", "Unit"),
+        ("\"Test\"", "A(i32), B { b: u8 }"),
+        ("\"{_variant}\"", "A(i32), Unit"),
+        ("\"<{_variant}>\"", "#[debug(\"a\")] A(i32), #[debug(\"u\")] Unit"),
+        ("\"{_0}\"", "A(i32), B(u8)"),
+        ("\"{}\", _0", "A(i32)"),
+        ("\"{_0:?}\"", "A(i32), #[debug(\"{_0:?}\")] B(u8)"),
+        ("\"\"", "Unit"),
+    ] {
+        out.push(negative_case(
+            format!("#[derive(derive_more::Debug)]\n#[debug({lit})]\npub enum T {{ {variants} }}\n"),
+            vec!["neg=debug_enum_level".into(), "fixed".into()],
+            json!({"neg": "debug"}),
+        ));
+    }
+    out
+}
+
+// ------------------------------------------------------------------------------------------------
+// defect models
+
+/// `0x…` addresses replaced by a fixed token
+fn mask_addresses(s: &str) -> String {
+    let b: Vec<char> = s.chars().collect();
+    let mut out = String::new();
+    let mut i = 0;
+    while i < b.len() {
+        if b[i] == '0' && i + 1 < b.len() && b[i + 1] == 'x' && i + 2 < b.len() && b[i + 2].is_ascii_hexdigit() {
+            let mut j = i + 2;
+            while j < b.len() && b[j].is_ascii_hexdigit() {
+                j += 1;
+            }
+            out.push_str("0x@");
+            i = j;
+        } else {
+            out.push(b[i]);
+            i += 1;
+        }
+    }
+    out
+}
+
+fn classify(c: &GenCase, r: &CaseResult, f: &Finding) -> Option<String> {
+    if !c.expect_compile {
+        return None;
+    }
+    if !r.compiled {
+        // Field-less variant without own attribute under a non-Display trait, enum-level default present: the
+        // defect predicts exactly the "implicit formatting of unit enum variant" diagnostic, plus rustc's
+        // follow-up about the trait impl that consequently does not exist.
+        if c.meta["unit_default_nondisplay"].as_bool() == Some(true) && c.meta["mode"] == "default" {
+            let tr = c.meta["trait"].as_str().unwrap_or("?");
+            let primary = r.errors.iter().filter(|e| e.message.contains(UNIT_MSG)).count();
+            let rest_ok = r.errors.iter().all(|e| e.message.contains(UNIT_MSG) || (e.code.as_deref() == Some("E0277") && e.message.contains(tr)));
+            if primary > 0 && rest_ok {
+                return Some(SIG_UNIT_DEFAULT.into());
+            }
+        }
+        return None;
+    }
+    // Wrapping enum-level format under `Pointer`, variant printing its single field by itself: the defect
+    // predicts the address of the `&field` binding instead of the field's own address, everything else equal.
+    if let Some(name) = f.summary.strip_prefix("run-time oracle failed: variant ") {
+        let listed = c.meta["ptr_implicit"].as_array().is_some_and(|a| a.iter().any(|n| n.as_str() == Some(name)));
+        if listed && c.meta["trait"] == "Pointer" && f.expected != f.observed && mask_addresses(&f.expected) == mask_addresses(&f.observed) && f.expected.contains("0x") {
+            return Some(SIG_PTR_WRAP.into());
+        }
+    }
+    None
+}
+
+const RULE: &str = "enums (1..5 variants: unit, empty tuple/brace, one field, 2..3 fields, tuple or named, raw idents; with/without own attribute, own attribute substitutable or not; rename_all on enum/variant) deriving one of the 8 Display-like traits x enum-level format in 4 modes: wrapping (1..3 mentions of `_variant` as `{_variant}`, positional argument, `alias = _variant`, mixed with text, escapes and references to fields common to all variants incl. expressions), default (no `_variant`; fields common to the attribute-less variants), bare `_variant` only, none. Oracle inside the program: own(v) = own attribute via format! | single field under the derived trait | (renamed) name; expected = format!(SHARED, .., _variant = own(v)) when `_variant` is mentioned, else SHARED for attribute-less variants and own(v) for the others; byte-equal to the derived output for one value per variant. Negative cases: `_variant` placeholder with any spec / non-Display type (systematic single-modifier table x 3 forms x 2 traits, plus random multi-modifier specs on generated enums) and enum-level format on derive_more::Debug must be rejected by the compiler; in-process screen of the full spec grid with rustc confirmation. Non-trivial = enum has a variant with and one without own attribute and the enum-level literal has text besides placeholders (or a negative case); distinct by program text";
 
 pub fn prop() -> DiceProp {
     DiceProp {
         crate_name: "gen_c07",
-        prelude: String::new(),
+        prelude: PRELUDE.to_string(),
         crate_attrs: String::new(),
         nightly: false,
         check_only: false,
-        ndice: 64,
-        quick: (10, 1),
-        thorough: (10, 1),
+        ndice: 260,
+        quick: (1400, 1),
+        thorough: (5000, 4),
         build,
-        fixed: no_fixed,
-        classify: no_classify,
-        rule: "stub".into(),
-        assumptions: vec![],
-        floors: vec![],
+        fixed,
+        classify,
+        rule: RULE.into(),
+        assumptions: vec![
+            "plain format! of the same toolchain is the reference".into(),
+            "a field-less variant without own attribute under a non-Display trait is generated only together with an enum-level default (the docs restrict implicit unit names to Display)".into(),
+        ],
+        floors: vec![
+            ("mode=wrap".into(), 0.3),
+            ("mode=default".into(), 0.2),
+            ("mode=transparent".into(), 0.05),
+            ("mixed_own_attribute".into(), 0.3),
+            ("variant_via_placeholder".into(), 0.2),
+            ("variant_via_positional".into(), 0.1),
+            ("variant_via_alias".into(), 0.1),
+            ("shared_refs_field".into(), 0.12),
+            ("has_fieldless_variant".into(), 0.2),
+            ("has_multi_field_variant".into(), 0.2),
+            ("renamed_name_wrapped".into(), 0.02),
+            ("neg=variant_spec".into(), 0.05),
+            ("neg=debug_enum_level".into(), 0.02),
+        ],
         shards: 0,
     }
 }
 
-pub fn run(ctx: &super::core::Ctx) -> super::core::Report {
-    super::progprop::run(&prop(), ctx)
+/// In-process screen of the rejection clause over the whole spec grid: whatever the expander does not reject
+/// itself is handed to rustc (negative shard); only a program that really compiles is a violation.
+fn e1_screen(ctx: &Ctx, rep: &mut Report) {
+    let grid = spec_grid();
+    let traits: &[(&str, &str, &str)] = if ctx.tier == Tier::Quick { &DTRAITS[..2] } else { &DTRAITS[..] };
+    let mut rejected = 0u64;
+    let mut panicked = 0u64;
+    let mut total = 0u64;
+    let mut candidates: Vec<(String, String)> = vec![];
+    for (tr, attr, tr_ty) in traits {
+        let Some(derive) = dm::Derive::by_name(tr) else { continue };
+        for form in 0..3 {
+            for spec in &grid {
+                let src = spec_item(tr, attr, tr_ty, form, spec, "");
+                let item = src.replacen(&format!("#[derive(derive_more::{tr})]\n"), "", 1);
+                total += 1;
+                match dm::expand_src(derive, &item) {
+                    Ok(dm::Outcome::Err(_)) => rejected += 1,
+                    Ok(dm::Outcome::Panic(_)) => panicked += 1,
+                    Ok(dm::Outcome::Ok(_)) => candidates.push((src, format!("{tr} form {form} spec `{spec}`"))),
+                    Err(e) => {
+                        rep.infra_errors.push(format!("C07 screen: generated item does not parse: {e}"));
+                        return;
+                    }
+                }
+            }
+        }
+    }
+    // enum-level format on Debug
+    let debug = dm::Derive::by_name("Debug").unwrap();
+    let lits = ["\"Test\"", "\"{_variant}\"", "\"<{_variant}>\"", "\"{_0}\"", "\"{}\", _0", "\"{_0:?} {}\", _0", "\"\"", "\"{{}}\""];
+    let bodies = ["Unit", "A(i32)", "A(i32), B(i32, u8)", "#[debug(\"a\")] A(i32), Unit", "A { a: i32 }", "#[debug(\"{a}\")] A { a: i32 }, #[debug(skip)] B(i32)"];
+    for l in lits {
+        for b in bodies {
+            let item = format!("#[debug({l})]\npub enum T {{ {b} }}\n");
+            total += 1;
+            match dm::expand_src(debug, &item) {
+                Ok(dm::Outcome::Err(_)) => rejected += 1,
+                Ok(dm::Outcome::Panic(_)) => panicked += 1,
+                Ok(dm::Outcome::Ok(_)) => candidates.push((format!("#[derive(derive_more::Debug)]\n{item}"), format!("Debug enum-level {l} on {{ {b} }}"))),
+                Err(e) => {
+                    rep.infra_errors.push(format!("C07 screen: generated item does not parse: {e}"));
+                    return;
+                }
+            }
+        }
+    }
+    rep.evidence.set(
+        "inprocess_rejection_screen",
+        json!({"items": total, "rejected_by_expander": rejected, "expander_panicked": panicked, "accepted_by_expander": candidates.len(),
+               "grid": "7 fill/align x 3 sign x # x 0 x 3 widths x 3 precisions x 11 types (minus the empty spec) x 3 ways of mentioning _variant x traits; 8 literals x 6 enum bodies for Debug"}),
+    );
+    if candidates.is_empty() {
+        return;
+    }
+    // confirmation through rustc: spread over the candidate list, bounded
+    let step = (candidates.len() / 24).max(1);
+    let picked: Vec<&(String, String)> = candidates.iter().step_by(step).take(24).collect();
+    let srcs: Vec<CaseSrc> = picked.iter().map(|(s, _)| CaseSrc { body: s.clone(), runnable: false, negative: true }).collect();
+    let spec = ProgSpec { name: "gen_c07_screen".into(), prelude: PRELUDE.to_string(), crate_attrs: String::new(), nightly: false, check_only: true, shards: 1 };
+    match build_and_run(ctx, &spec, &srcs) {
+        Ok(built) => {
+            rep.infra_errors.extend(built.infra.clone());
+            for ((src, what), r) in picked.iter().zip(built.results.iter()) {
+                if r.compiled {
+                    let case = negative_case(src.clone(), vec!["screen".into()], json!({"neg": "screen"}));
+                    rep.violations.push(Violation {
+                        sig: None,
+                        summary: format!("input must be rejected with a compile error but it compiles ({what})"),
+                        case: serde_json::to_value(&case).unwrap_or(Value::Null),
+                        expected: "compile error".into(),
+                        observed: "compiles".into(),
+                    });
+                }
+            }
+        }
+        Err(e) => rep.infra_errors.push(e),
+    }
 }
 
-pub fn replay(ctx: &super::core::Ctx, case: &serde_json::Value) -> super::core::Report {
+pub fn run(ctx: &Ctx) -> Report {
+    let mut rep = super::progprop::run(&prop(), ctx);
+    e1_screen(ctx, &mut rep);
+    rep
+}
+
+pub fn replay(ctx: &Ctx, case: &Value) -> Report {
     super::progprop::replay(&prop(), ctx, case)
 }
